@@ -42,9 +42,15 @@ func c11Register() {
 	})
 }
 
-func genC11Op(t *rapid.T) c11Op {
-	kind := rapid.SampledFrom([]string{"index", "index", "delete", "batch", "batch", "search", "search", "searchDeadline", "searchCancel", "document", "doccount",
-		"fields", "fielddict", "stats", "forcemerge", "copy", "getinternal", "setinternal"}).Draw(t, "op")
+var c11MixedOps = []string{"index", "index", "delete", "batch", "batch", "search", "search", "searchDeadline", "searchCancel", "document", "doccount",
+	"fields", "fielddict", "stats", "forcemerge", "copy", "getinternal", "setinternal"}
+
+// maintenance profile: backups, forced merges and writes dominate, so that several backups
+// overlap each other and the persister's file clean-up
+var c11MaintenanceOps = []string{"copy", "copy", "copy", "batch", "batch", "index", "delete", "forcemerge", "search", "stats"}
+
+func genC11Op(t *rapid.T, kinds []string) c11Op {
+	kind := rapid.SampledFrom(kinds).Draw(t, "op")
 	op := c11Op{Kind: kind}
 	switch kind {
 	case "index", "delete", "document":
@@ -81,7 +87,7 @@ func TestC11Concurrent(t *testing.T) {
 	ev := Ev("C11")
 	ev.SetRule("rapid: 4-8 goroutines each running 4-14 generated operations (Index, Delete, Batch, Search with and without a deadline, Search with a context cancelled before or during the call, Document, DocCount, Fields, FieldDict (closed), Stats/StatsMap, ForceMerge, CopyTo, Set/GetInternal) with one Close issued by a generated goroutine at a generated position, on scorch disk/memory and upsidedown gtreap/boltdb, under a seeded delay plan and GOMAXPROCS in {2,4,16}; the binary is built with -race. " +
 		"Oracle: no goroutine panics, no async error callback, the race detector stays silent (non-zero exit with a race log), every call returns within the 60 s watchdog, Close returns, every call started after Close returned yields ErrorIndexClosed, calls overlapping Close yield a result or that error, a search cancelled before it starts returns the context error, a search cancelled in flight returns a result or the context error and the next search works; 2 s after Close no goroutine has a frame in bleve and no fd/mmap of the index remains; " +
-		"non-trivial = Close overlapped (started while) >=1 write and >=1 search were in flight or pending, and >=4 goroutines ran")
+		"one case in four on scorch disk uses a maintenance profile (mostly CopyTo, Batch, ForceMerge; Close last) so that backups overlap each other and the persister's clean-up; non-trivial = >=4 goroutines ran and Close started while >=1 write or >=1 search was in flight, or two backups overlapped")
 	ev.Assume("schedules are sampled, not enumerated; data races are found only when the detector sees both accesses in one run")
 	checkPropN(t, "C11", 80, func(t *rapid.T) {
 		cfg := Config{Engine: rapid.SampledFrom([]string{EngScorchDisk, EngScorchDisk, EngScorchMem, EngUDGtreap, EngUDBolt}).Draw(t, "engine")}
@@ -89,16 +95,24 @@ func TestC11Concurrent(t *testing.T) {
 			cfg = genC03Config(t)
 		}
 		cfg.AsyncErrCB = "verif-c11"
+		kinds := c11MixedOps
+		maintenance := cfg.Engine == EngScorchDisk && rapid.IntRange(0, 3).Draw(t, "maintenance") == 0
+		if maintenance {
+			kinds = c11MaintenanceOps
+		}
 		ng := rapid.IntRange(4, 8).Draw(t, "ngoroutines")
 		plans := make([][]c11Op, ng)
 		for g := range plans {
 			n := rapid.IntRange(4, 14).Draw(t, "nops")
 			for i := 0; i < n; i++ {
-				plans[g] = append(plans[g], genC11Op(t))
+				plans[g] = append(plans[g], genC11Op(t, kinds))
 			}
 		}
 		closer := rapid.IntRange(0, ng-1).Draw(t, "closer")
 		closeAt := rapid.IntRange(1, len(plans[closer])).Draw(t, "closeAt")
+		if maintenance {
+			closeAt = len(plans[closer]) // Close late: the point of this profile is overlap among the operations
+		}
 		seed := rapid.Uint64().Draw(t, "delaySeed")
 		procs := rapid.SampledFrom([]int{2, 4, 16}).Draw(t, "gomaxprocs")
 		old := runtime.GOMAXPROCS(procs)
@@ -116,7 +130,7 @@ func TestC11Concurrent(t *testing.T) {
 			_ = idx.Index(id, map[string]interface{}{"t": Vocab[i] + " " + Vocab[i+1]})
 		}
 		var closeStarted, closeReturned atomic.Bool
-		var inflightWrites, inflightSearches, overlapW, overlapS atomic.Int64
+		var inflightWrites, inflightSearches, overlapW, overlapS, inflightCopies, overlapCopies atomic.Int64
 		var problems sync.Map
 		report := func(g, i int, op c11Op, format string, a ...interface{}) {
 			problems.Store(fmt.Sprintf("goroutine %d op %d %s: ", g, i, canonJSON(op))+fmt.Sprintf(format, a...), true)
@@ -209,6 +223,10 @@ func TestC11Concurrent(t *testing.T) {
 				}
 			case "copy":
 				if ic, ok := idx.(bleve.IndexCopyable); ok && cfg.Engine == EngScorchDisk {
+					if inflightCopies.Add(1) >= 2 {
+						overlapCopies.Add(1)
+					}
+					defer inflightCopies.Add(-1)
 					e := ic.CopyTo(bleve.FileSystemDirectory(filepath.Join(dir, fmt.Sprintf("copy-%d-%d", g, i))))
 					err = e
 				}
@@ -317,13 +335,19 @@ func TestC11Concurrent(t *testing.T) {
 		if open := openFilesUnder(idxDir); len(open) > 0 {
 			t.Fatalf("after Close these files of the index are still open: %v\n%s", open, desc)
 		}
-		nt := ng >= 4 && (overlapW.Load() >= 1 || overlapS.Load() >= 1)
+		nt := ng >= 4 && (overlapW.Load() >= 1 || overlapS.Load() >= 1 || overlapCopies.Load() >= 1)
 		cl := []string{"engine:" + cfg.Engine, fmt.Sprintf("gomaxprocs:%d", procs)}
 		if overlapW.Load() >= 1 {
 			cl = append(cl, "close-during-write")
 		}
 		if overlapS.Load() >= 1 {
 			cl = append(cl, "close-during-search")
+		}
+		if maintenance {
+			cl = append(cl, "maintenance-profile")
+		}
+		if overlapCopies.Load() >= 1 {
+			cl = append(cl, "overlapping-backups")
 		}
 		canon := map[string]interface{}{"cfg": cfg, "plans": plans, "closer": closer, "closeAt": closeAt, "seed": seed, "procs": procs}
 		smp := map[string]interface{}{"cfg": cfg, "goroutines": ng, "closer": closer, "close_before_op": closeAt - 1, "delay_seed": seed, "gomaxprocs": procs, "first_plan": plans[0], "writes_in_flight_at_close": overlapW.Load(), "searches_in_flight_at_close": overlapS.Load()}
